@@ -641,7 +641,8 @@ def inv_c20(prog, trace):
                 return j, n, (n["share"], key)
         return None, None, None
 
-    for t, e in flat(trace):
+    EV = list(flat(trace))
+    for idx, (t, e) in enumerate(EV):
         if e[0] == "act" and e[5] in ("put", "set", "inc"):
             F, X, a = acts[e[4]]
             if e[5] == "inc":
@@ -664,6 +665,17 @@ def inv_c20(prog, trace):
             j, n, mk = marker_of(e[3])
             if mk is None:
                 continue
+            # the mark is reset by a transition that is TAKEN: the go act that owns this transit action must
+            # report success (a transition refused by the entry check of its target leaves the mark alone)
+            if acts[e[3]][2]["kind"] == "go":
+                res = None
+                for t2, e2 in reversed(EV[:idx]):     # the act event of an action precedes its sub-events
+                    if e2[0] == "act" and e2[4] == e[3] and e2[5] == "go":
+                        res = e2[6]
+                        break
+                if res is not None and not res:
+                    fails.append(("c20-reset-without-transition", "tick %d: the transit (mark reset) action of `go` line %d ran although "
+                                  "the transition was not taken (refused by the entry check of its target)" % (t, e[3])))
             m = marks.setdefault(mk, {"reset": None, "transit": None, "snap": None, "has": False, "kinds": set()})
             if n["kind"] == "updated":
                 m["reset"] = t
